@@ -43,6 +43,11 @@ def main():
                                   "re": L.frac(c.real), "im": L.frac(c.imag), "op": res})
         except Exception as e:  # noqa: BLE001
             out["splits"].append({"tag": "raise", "exc": type(e).__name__, "msg": str(e)[:120], "op": res})
+    out["cts"] = []
+    for case in pl.get("cts", []):
+        res, verdict = L.run_ct(case, tb)
+        res["verdict"] = verdict
+        out["cts"].append(res)
     print("RESULT " + json.dumps(out))
 
 
